@@ -405,3 +405,26 @@ where
     let one = circuit.define_const(SC::Challenge::ONE);
     circuit.sub(exp, one)
 }
+
+/// Verification hook (guard: `--cfg p3_recursion_verif`): public wrapper around the private
+/// vanishing-polynomial gadget.
+#[cfg(p3_recursion_verif)]
+pub fn verif_vanishing_poly_at_point_circuit<
+    SC: StarkGenericConfig,
+    InputProof: Recursive<SC::Challenge>,
+    OpeningProof: Recursive<SC::Challenge>,
+    Comm: Recursive<SC::Challenge>,
+    Domain,
+>(
+    pcs: &SC::Pcs,
+    domain: &Domain,
+    point: Target,
+    circuit: &mut CircuitBuilder<SC::Challenge>,
+) -> Target
+where
+    SC::Pcs: RecursivePcs<SC, InputProof, OpeningProof, Comm, Domain>,
+{
+    vanishing_poly_at_point_circuit::<SC, InputProof, OpeningProof, Comm, Domain>(
+        pcs, domain, point, circuit,
+    )
+}
